@@ -123,6 +123,13 @@ claim("C12", "other", "dominance/fact rule on the symbol-yielding outcomes; prov
       "Partial: completeness as a whole not decided; a hash written in a non-enumerated form is reported UNRECOGNISED rather than judged. Trusted: C02, C09, C15, C16.",
       "DESIGN.md 5/C12")
 
+claim("C20", "other", "guard/outcome pairing on the typed views of both parsers, call-site provenance of find_common_data's arms vs the targeted accessors, closure-body templates for the searches",
+      "Pairing rules (necessary conditions for agreement): each typed view is refused with the right error exactly when the type differs from the constant paired with the view it builds; "
+      "find_common_data's arms call, under sh_type == K, the same helper with the same argument provenance as the accessor that searches for K and store the result in the field of that kind; "
+      "the PT_DYNAMIC fallback is built identically in both places; section_header_by_name is a first-match search on string equality with strtab.get(sh_name), false on unreadable names.",
+      "Partial: equality of the results as values is behavioural and not decided. Trusted: C03, C19; the property's 'at most one section of each kind' quantifier.",
+      "DESIGN.md 5/C20")
+
 for pid in ["C01", "C02", "C03", "C04", "C05", "C06", "C07", "C08", "C09", "C10", "C11", "C12", "C13", "C14", "C15", "C16", "C17", "C18", "C20"]:
     if pid not in CLAIMS:
         na(pid, "static rule designed (DESIGN.md section 5) but its checker is not built yet in this revision; not claimed until it runs silent on the tree and fires on control mutants")
